@@ -9,11 +9,13 @@ open Spec.RV32 Model.RVEnc
 theorem decodeAny_comp {c : Cls} (hc : c.isC = true) (w : Nat) : decodeAny c.size w = (decodeC w).map .comp := by
   simp [decodeAny, Cls.size, hc]
 
-theorem good_intro {c : Cls} {o : Ops} {w : Nat} (he : enc c o = .ok w)
-    (hd : ∀ w', w' = w → decodeAny c.size w' = some (meaning c o)) : Good c o := ⟨w, he, hd w rfl⟩
+theorem good_intro {c : Cls} {o : Ops} {w : Int} (he : enc c o = .ok w)
+    (hd : ∀ w', w' = w → decodeAny c.size w'.toNat = some (meaning c o)) : Good c o := ⟨w, he, hd w rfl⟩
 
-macro "put1" : tactic => `(tactic| (rw [put_ok_s]; rotate_left; omega; omega; omega; simp only [bind, Except.bind]))
-macro "puts" : tactic => `(tactic| ((repeat put1); rw [put_ok_s] <;> omega))
+macro "pco" : tactic => `(tactic| (first | omega | (push_cast <;> omega)))
+macro "absf" : tactic => `(tactic| (generalize hx : fld _ _ = x; have hb := fld_spec hx (by decide); push_cast at hb; clear hx))
+macro "putc" : tactic => `(tactic| (rw [put_okf]; rotate_left; pco; pco; pco; simp only [bind, Except.bind]; absf))
+macro "puts" : tactic => `(tactic| ((repeat putc); rw [put_okf] <;> pco))
 
 theorem good_CSub (o : Ops) (h : valid .CSub o) : Good .CSub o := by
   simp only [valid, reg, regP, simm, uimm, Nat.reduceSub, Nat.reducePow] at h
@@ -26,10 +28,11 @@ theorem good_CSub (o : Ops) (h : valid .CSub o) : Good .CSub o := by
     simp only []
     puts
   intro w hw
-  have hlt : w < 65536 := by omega
-  have e1 : w % 4 = 1 := by omega
-  have e2 : w / 8192 = 4 := by omega
-  rw [decodeAny_comp rfl, fieldsC w, decodeC_asmC ⟨by omega, by omega, by omega, by omega, by omega⟩, e1, e2]
+  push_cast at hw
+  have hlt : w.toNat < 65536 := by omega
+  have e1 : w.toNat % 4 = 1 := by omega
+  have e2 : w.toNat / 8192 = 4 := by omega
+  rw [decodeAny_comp rfl, fieldsC w.toNat, decodeC_asmC ⟨by omega, by omega, by omega, by omega, by omega⟩, e1, e2]
   simp [decodeCF, meaning, immCIF, immCJF, immCBF, sext]
   all_goals omega
 
@@ -44,10 +47,11 @@ theorem good_CXor (o : Ops) (h : valid .CXor o) : Good .CXor o := by
     simp only []
     puts
   intro w hw
-  have hlt : w < 65536 := by omega
-  have e1 : w % 4 = 1 := by omega
-  have e2 : w / 8192 = 4 := by omega
-  rw [decodeAny_comp rfl, fieldsC w, decodeC_asmC ⟨by omega, by omega, by omega, by omega, by omega⟩, e1, e2]
+  push_cast at hw
+  have hlt : w.toNat < 65536 := by omega
+  have e1 : w.toNat % 4 = 1 := by omega
+  have e2 : w.toNat / 8192 = 4 := by omega
+  rw [decodeAny_comp rfl, fieldsC w.toNat, decodeC_asmC ⟨by omega, by omega, by omega, by omega, by omega⟩, e1, e2]
   simp [decodeCF, meaning, immCIF, immCJF, immCBF, sext]
   all_goals omega
 
@@ -62,10 +66,11 @@ theorem good_COr (o : Ops) (h : valid .COr o) : Good .COr o := by
     simp only []
     puts
   intro w hw
-  have hlt : w < 65536 := by omega
-  have e1 : w % 4 = 1 := by omega
-  have e2 : w / 8192 = 4 := by omega
-  rw [decodeAny_comp rfl, fieldsC w, decodeC_asmC ⟨by omega, by omega, by omega, by omega, by omega⟩, e1, e2]
+  push_cast at hw
+  have hlt : w.toNat < 65536 := by omega
+  have e1 : w.toNat % 4 = 1 := by omega
+  have e2 : w.toNat / 8192 = 4 := by omega
+  rw [decodeAny_comp rfl, fieldsC w.toNat, decodeC_asmC ⟨by omega, by omega, by omega, by omega, by omega⟩, e1, e2]
   simp [decodeCF, meaning, immCIF, immCJF, immCBF, sext]
   all_goals omega
 
@@ -80,10 +85,11 @@ theorem good_CAnd (o : Ops) (h : valid .CAnd o) : Good .CAnd o := by
     simp only []
     puts
   intro w hw
-  have hlt : w < 65536 := by omega
-  have e1 : w % 4 = 1 := by omega
-  have e2 : w / 8192 = 4 := by omega
-  rw [decodeAny_comp rfl, fieldsC w, decodeC_asmC ⟨by omega, by omega, by omega, by omega, by omega⟩, e1, e2]
+  push_cast at hw
+  have hlt : w.toNat < 65536 := by omega
+  have e1 : w.toNat % 4 = 1 := by omega
+  have e2 : w.toNat / 8192 = 4 := by omega
+  rw [decodeAny_comp rfl, fieldsC w.toNat, decodeC_asmC ⟨by omega, by omega, by omega, by omega, by omega⟩, e1, e2]
   simp [decodeCF, meaning, immCIF, immCJF, immCBF, sext]
   all_goals omega
 
@@ -98,10 +104,11 @@ theorem good_CSlli (o : Ops) (h : valid .CSlli o) : Good .CSlli o := by
     simp only []
     puts
   intro w hw
-  have hlt : w < 65536 := by omega
-  have e1 : w % 4 = 2 := by omega
-  have e2 : w / 8192 = 0 := by omega
-  rw [decodeAny_comp rfl, fieldsC w, decodeC_asmC ⟨by omega, by omega, by omega, by omega, by omega⟩, e1, e2]
+  push_cast at hw
+  have hlt : w.toNat < 65536 := by omega
+  have e1 : w.toNat % 4 = 2 := by omega
+  have e2 : w.toNat / 8192 = 0 := by omega
+  rw [decodeAny_comp rfl, fieldsC w.toNat, decodeC_asmC ⟨by omega, by omega, by omega, by omega, by omega⟩, e1, e2]
   simp [decodeCF, meaning, immCIF, immCJF, immCBF, sext]
   all_goals omega
 
@@ -116,10 +123,11 @@ theorem good_CSrli (o : Ops) (h : valid .CSrli o) : Good .CSrli o := by
     simp only []
     puts
   intro w hw
-  have hlt : w < 65536 := by omega
-  have e1 : w % 4 = 1 := by omega
-  have e2 : w / 8192 = 4 := by omega
-  rw [decodeAny_comp rfl, fieldsC w, decodeC_asmC ⟨by omega, by omega, by omega, by omega, by omega⟩, e1, e2]
+  push_cast at hw
+  have hlt : w.toNat < 65536 := by omega
+  have e1 : w.toNat % 4 = 1 := by omega
+  have e2 : w.toNat / 8192 = 4 := by omega
+  rw [decodeAny_comp rfl, fieldsC w.toNat, decodeC_asmC ⟨by omega, by omega, by omega, by omega, by omega⟩, e1, e2]
   simp [decodeCF, meaning, immCIF, immCJF, immCBF, sext]
   all_goals omega
 
@@ -134,10 +142,11 @@ theorem good_CSrai (o : Ops) (h : valid .CSrai o) : Good .CSrai o := by
     simp only []
     puts
   intro w hw
-  have hlt : w < 65536 := by omega
-  have e1 : w % 4 = 1 := by omega
-  have e2 : w / 8192 = 4 := by omega
-  rw [decodeAny_comp rfl, fieldsC w, decodeC_asmC ⟨by omega, by omega, by omega, by omega, by omega⟩, e1, e2]
+  push_cast at hw
+  have hlt : w.toNat < 65536 := by omega
+  have e1 : w.toNat % 4 = 1 := by omega
+  have e2 : w.toNat / 8192 = 4 := by omega
+  rw [decodeAny_comp rfl, fieldsC w.toNat, decodeC_asmC ⟨by omega, by omega, by omega, by omega, by omega⟩, e1, e2]
   simp [decodeCF, meaning, immCIF, immCJF, immCBF, sext]
   all_goals omega
 
@@ -152,10 +161,11 @@ theorem good_CAndi (o : Ops) (h : valid .CAndi o) : Good .CAndi o := by
     simp only []
     puts
   intro w hw
-  have hlt : w < 65536 := by omega
-  have e1 : w % 4 = 1 := by omega
-  have e2 : w / 8192 = 4 := by omega
-  rw [decodeAny_comp rfl, fieldsC w, decodeC_asmC ⟨by omega, by omega, by omega, by omega, by omega⟩, e1, e2]
+  push_cast at hw
+  have hlt : w.toNat < 65536 := by omega
+  have e1 : w.toNat % 4 = 1 := by omega
+  have e2 : w.toNat / 8192 = 4 := by omega
+  rw [decodeAny_comp rfl, fieldsC w.toNat, decodeC_asmC ⟨by omega, by omega, by omega, by omega, by omega⟩, e1, e2]
   simp [decodeCF, meaning, immCIF, immCJF, immCBF, sext]
   all_goals omega
 
@@ -170,10 +180,11 @@ theorem good_CAddi (o : Ops) (h : valid .CAddi o) : Good .CAddi o := by
     simp only []
     puts
   intro w hw
-  have hlt : w < 65536 := by omega
-  have e1 : w % 4 = 1 := by omega
-  have e2 : w / 8192 = 0 := by omega
-  rw [decodeAny_comp rfl, fieldsC w, decodeC_asmC ⟨by omega, by omega, by omega, by omega, by omega⟩, e1, e2]
+  push_cast at hw
+  have hlt : w.toNat < 65536 := by omega
+  have e1 : w.toNat % 4 = 1 := by omega
+  have e2 : w.toNat / 8192 = 0 := by omega
+  rw [decodeAny_comp rfl, fieldsC w.toNat, decodeC_asmC ⟨by omega, by omega, by omega, by omega, by omega⟩, e1, e2]
   simp [decodeCF, meaning, immCIF, immCJF, immCBF, sext]
   all_goals omega
 
@@ -188,10 +199,11 @@ theorem good_CNop (o : Ops) (h : valid .CNop o) : Good .CNop o := by
     simp only []
     puts
   intro w hw
-  have hlt : w < 65536 := by omega
-  have e1 : w % 4 = 1 := by omega
-  have e2 : w / 8192 = 0 := by omega
-  rw [decodeAny_comp rfl, fieldsC w, decodeC_asmC ⟨by omega, by omega, by omega, by omega, by omega⟩, e1, e2]
+  push_cast at hw
+  have hlt : w.toNat < 65536 := by omega
+  have e1 : w.toNat % 4 = 1 := by omega
+  have e2 : w.toNat / 8192 = 0 := by omega
+  rw [decodeAny_comp rfl, fieldsC w.toNat, decodeC_asmC ⟨by omega, by omega, by omega, by omega, by omega⟩, e1, e2]
   simp [decodeCF, meaning, immCIF, immCJF, immCBF, sext]
   all_goals omega
 
@@ -206,10 +218,11 @@ theorem good_CEbreak (o : Ops) (h : valid .CEbreak o) : Good .CEbreak o := by
     simp only []
     puts
   intro w hw
-  have hlt : w < 65536 := by omega
-  have e1 : w % 4 = 2 := by omega
-  have e2 : w / 8192 = 4 := by omega
-  rw [decodeAny_comp rfl, fieldsC w, decodeC_asmC ⟨by omega, by omega, by omega, by omega, by omega⟩, e1, e2]
+  push_cast at hw
+  have hlt : w.toNat < 65536 := by omega
+  have e1 : w.toNat % 4 = 2 := by omega
+  have e2 : w.toNat / 8192 = 4 := by omega
+  rw [decodeAny_comp rfl, fieldsC w.toNat, decodeC_asmC ⟨by omega, by omega, by omega, by omega, by omega⟩, e1, e2]
   simp [decodeCF, meaning, immCIF, immCJF, immCBF, sext]
   all_goals omega
 
@@ -224,10 +237,11 @@ theorem good_CMovr (o : Ops) (h : valid .CMovr o) : Good .CMovr o := by
     simp only []
     puts
   intro w hw
-  have hlt : w < 65536 := by omega
-  have e1 : w % 4 = 2 := by omega
-  have e2 : w / 8192 = 4 := by omega
-  rw [decodeAny_comp rfl, fieldsC w, decodeC_asmC ⟨by omega, by omega, by omega, by omega, by omega⟩, e1, e2]
+  push_cast at hw
+  have hlt : w.toNat < 65536 := by omega
+  have e1 : w.toNat % 4 = 2 := by omega
+  have e2 : w.toNat / 8192 = 4 := by omega
+  rw [decodeAny_comp rfl, fieldsC w.toNat, decodeC_asmC ⟨by omega, by omega, by omega, by omega, by omega⟩, e1, e2]
   simp [decodeCF, meaning, immCIF, immCJF, immCBF, sext]
   all_goals omega
 
@@ -242,10 +256,11 @@ theorem good_CJal (o : Ops) (h : valid .CJal o) : Good .CJal o := by
     simp only []
     puts
   intro w hw
-  have hlt : w < 65536 := by omega
-  have e1 : w % 4 = 1 := by omega
-  have e2 : w / 8192 = 1 := by omega
-  rw [decodeAny_comp rfl, fieldsC w, decodeC_asmC ⟨by omega, by omega, by omega, by omega, by omega⟩, e1, e2]
+  push_cast at hw
+  have hlt : w.toNat < 65536 := by omega
+  have e1 : w.toNat % 4 = 1 := by omega
+  have e2 : w.toNat / 8192 = 1 := by omega
+  rw [decodeAny_comp rfl, fieldsC w.toNat, decodeC_asmC ⟨by omega, by omega, by omega, by omega, by omega⟩, e1, e2]
   simp [decodeCF, meaning, immCIF, immCJF, immCBF, sext]
   all_goals omega
 
@@ -260,10 +275,11 @@ theorem good_CJ (o : Ops) (h : valid .CJ o) : Good .CJ o := by
     simp only []
     puts
   intro w hw
-  have hlt : w < 65536 := by omega
-  have e1 : w % 4 = 1 := by omega
-  have e2 : w / 8192 = 5 := by omega
-  rw [decodeAny_comp rfl, fieldsC w, decodeC_asmC ⟨by omega, by omega, by omega, by omega, by omega⟩, e1, e2]
+  push_cast at hw
+  have hlt : w.toNat < 65536 := by omega
+  have e1 : w.toNat % 4 = 1 := by omega
+  have e2 : w.toNat / 8192 = 5 := by omega
+  rw [decodeAny_comp rfl, fieldsC w.toNat, decodeC_asmC ⟨by omega, by omega, by omega, by omega, by omega⟩, e1, e2]
   simp [decodeCF, meaning, immCIF, immCJF, immCBF, sext]
   all_goals omega
 
@@ -278,10 +294,11 @@ theorem good_CJr (o : Ops) (h : valid .CJr o) : Good .CJr o := by
     simp only []
     puts
   intro w hw
-  have hlt : w < 65536 := by omega
-  have e1 : w % 4 = 2 := by omega
-  have e2 : w / 8192 = 4 := by omega
-  rw [decodeAny_comp rfl, fieldsC w, decodeC_asmC ⟨by omega, by omega, by omega, by omega, by omega⟩, e1, e2]
+  push_cast at hw
+  have hlt : w.toNat < 65536 := by omega
+  have e1 : w.toNat % 4 = 2 := by omega
+  have e2 : w.toNat / 8192 = 4 := by omega
+  rw [decodeAny_comp rfl, fieldsC w.toNat, decodeC_asmC ⟨by omega, by omega, by omega, by omega, by omega⟩, e1, e2]
   simp [decodeCF, meaning, immCIF, immCJF, immCBF, sext]
   all_goals omega
 
@@ -296,10 +313,11 @@ theorem good_CJalr (o : Ops) (h : valid .CJalr o) : Good .CJalr o := by
     simp only []
     puts
   intro w hw
-  have hlt : w < 65536 := by omega
-  have e1 : w % 4 = 2 := by omega
-  have e2 : w / 8192 = 4 := by omega
-  rw [decodeAny_comp rfl, fieldsC w, decodeC_asmC ⟨by omega, by omega, by omega, by omega, by omega⟩, e1, e2]
+  push_cast at hw
+  have hlt : w.toNat < 65536 := by omega
+  have e1 : w.toNat % 4 = 2 := by omega
+  have e2 : w.toNat / 8192 = 4 := by omega
+  rw [decodeAny_comp rfl, fieldsC w.toNat, decodeC_asmC ⟨by omega, by omega, by omega, by omega, by omega⟩, e1, e2]
   simp [decodeCF, meaning, immCIF, immCJF, immCBF, sext]
   all_goals omega
 
@@ -314,10 +332,11 @@ theorem good_CBeqz (o : Ops) (h : valid .CBeqz o) : Good .CBeqz o := by
     simp only []
     puts
   intro w hw
-  have hlt : w < 65536 := by omega
-  have e1 : w % 4 = 1 := by omega
-  have e2 : w / 8192 = 6 := by omega
-  rw [decodeAny_comp rfl, fieldsC w, decodeC_asmC ⟨by omega, by omega, by omega, by omega, by omega⟩, e1, e2]
+  push_cast at hw
+  have hlt : w.toNat < 65536 := by omega
+  have e1 : w.toNat % 4 = 1 := by omega
+  have e2 : w.toNat / 8192 = 6 := by omega
+  rw [decodeAny_comp rfl, fieldsC w.toNat, decodeC_asmC ⟨by omega, by omega, by omega, by omega, by omega⟩, e1, e2]
   simp [decodeCF, meaning, immCIF, immCJF, immCBF, sext]
   all_goals omega
 
@@ -332,10 +351,11 @@ theorem good_CBnez (o : Ops) (h : valid .CBnez o) : Good .CBnez o := by
     simp only []
     puts
   intro w hw
-  have hlt : w < 65536 := by omega
-  have e1 : w % 4 = 1 := by omega
-  have e2 : w / 8192 = 7 := by omega
-  rw [decodeAny_comp rfl, fieldsC w, decodeC_asmC ⟨by omega, by omega, by omega, by omega, by omega⟩, e1, e2]
+  push_cast at hw
+  have hlt : w.toNat < 65536 := by omega
+  have e1 : w.toNat % 4 = 1 := by omega
+  have e2 : w.toNat / 8192 = 7 := by omega
+  rw [decodeAny_comp rfl, fieldsC w.toNat, decodeC_asmC ⟨by omega, by omega, by omega, by omega, by omega⟩, e1, e2]
   simp [decodeCF, meaning, immCIF, immCJF, immCBF, sext]
   all_goals omega
 
@@ -350,10 +370,11 @@ theorem good_CLw (o : Ops) (h : valid .CLw o) : Good .CLw o := by
     simp only []
     puts
   intro w hw
-  have hlt : w < 65536 := by omega
-  have e1 : w % 4 = 0 := by omega
-  have e2 : w / 8192 = 2 := by omega
-  rw [decodeAny_comp rfl, fieldsC w, decodeC_asmC ⟨by omega, by omega, by omega, by omega, by omega⟩, e1, e2]
+  push_cast at hw
+  have hlt : w.toNat < 65536 := by omega
+  have e1 : w.toNat % 4 = 0 := by omega
+  have e2 : w.toNat / 8192 = 2 := by omega
+  rw [decodeAny_comp rfl, fieldsC w.toNat, decodeC_asmC ⟨by omega, by omega, by omega, by omega, by omega⟩, e1, e2]
   simp [decodeCF, meaning, immCIF, immCJF, immCBF, sext]
   all_goals omega
 
@@ -368,10 +389,11 @@ theorem good_CSw (o : Ops) (h : valid .CSw o) : Good .CSw o := by
     simp only []
     puts
   intro w hw
-  have hlt : w < 65536 := by omega
-  have e1 : w % 4 = 0 := by omega
-  have e2 : w / 8192 = 6 := by omega
-  rw [decodeAny_comp rfl, fieldsC w, decodeC_asmC ⟨by omega, by omega, by omega, by omega, by omega⟩, e1, e2]
+  push_cast at hw
+  have hlt : w.toNat < 65536 := by omega
+  have e1 : w.toNat % 4 = 0 := by omega
+  have e2 : w.toNat / 8192 = 6 := by omega
+  rw [decodeAny_comp rfl, fieldsC w.toNat, decodeC_asmC ⟨by omega, by omega, by omega, by omega, by omega⟩, e1, e2]
   simp [decodeCF, meaning, immCIF, immCJF, immCBF, sext]
   all_goals omega
 
@@ -386,10 +408,11 @@ theorem good_CLwsp (o : Ops) (h : valid .CLwsp o) : Good .CLwsp o := by
     simp only []
     puts
   intro w hw
-  have hlt : w < 65536 := by omega
-  have e1 : w % 4 = 2 := by omega
-  have e2 : w / 8192 = 2 := by omega
-  rw [decodeAny_comp rfl, fieldsC w, decodeC_asmC ⟨by omega, by omega, by omega, by omega, by omega⟩, e1, e2]
+  push_cast at hw
+  have hlt : w.toNat < 65536 := by omega
+  have e1 : w.toNat % 4 = 2 := by omega
+  have e2 : w.toNat / 8192 = 2 := by omega
+  rw [decodeAny_comp rfl, fieldsC w.toNat, decodeC_asmC ⟨by omega, by omega, by omega, by omega, by omega⟩, e1, e2]
   simp [decodeCF, meaning, immCIF, immCJF, immCBF, sext]
   all_goals omega
 
@@ -404,10 +427,11 @@ theorem good_CAddi4spn (o : Ops) (h : valid .CAddi4spn o) : Good .CAddi4spn o :=
     simp only []
     puts
   intro w hw
-  have hlt : w < 65536 := by omega
-  have e1 : w % 4 = 0 := by omega
-  have e2 : w / 8192 = 0 := by omega
-  rw [decodeAny_comp rfl, fieldsC w, decodeC_asmC ⟨by omega, by omega, by omega, by omega, by omega⟩, e1, e2]
+  push_cast at hw
+  have hlt : w.toNat < 65536 := by omega
+  have e1 : w.toNat % 4 = 0 := by omega
+  have e2 : w.toNat / 8192 = 0 := by omega
+  rw [decodeAny_comp rfl, fieldsC w.toNat, decodeC_asmC ⟨by omega, by omega, by omega, by omega, by omega⟩, e1, e2]
   simp [decodeCF, meaning, immCIF, immCJF, immCBF, sext]
   all_goals omega
 
@@ -422,10 +446,11 @@ theorem good_CAddi16sp (o : Ops) (h : valid .CAddi16sp o) : Good .CAddi16sp o :=
     simp only []
     puts
   intro w hw
-  have hlt : w < 65536 := by omega
-  have e1 : w % 4 = 1 := by omega
-  have e2 : w / 8192 = 3 := by omega
-  rw [decodeAny_comp rfl, fieldsC w, decodeC_asmC ⟨by omega, by omega, by omega, by omega, by omega⟩, e1, e2]
+  push_cast at hw
+  have hlt : w.toNat < 65536 := by omega
+  have e1 : w.toNat % 4 = 1 := by omega
+  have e2 : w.toNat / 8192 = 3 := by omega
+  rw [decodeAny_comp rfl, fieldsC w.toNat, decodeC_asmC ⟨by omega, by omega, by omega, by omega, by omega⟩, e1, e2]
   simp [decodeCF, meaning, immCIF, immCJF, immCBF, sext]
   all_goals omega
 
@@ -440,10 +465,11 @@ theorem good_CSwsp (o : Ops) (h : valid .CSwsp o) : Good .CSwsp o := by
     simp only []
     puts
   intro w hw
-  have hlt : w < 65536 := by omega
-  have e1 : w % 4 = 2 := by omega
-  have e2 : w / 8192 = 6 := by omega
-  rw [decodeAny_comp rfl, fieldsC w, decodeC_asmC ⟨by omega, by omega, by omega, by omega, by omega⟩, e1, e2]
+  push_cast at hw
+  have hlt : w.toNat < 65536 := by omega
+  have e1 : w.toNat % 4 = 2 := by omega
+  have e2 : w.toNat / 8192 = 6 := by omega
+  rw [decodeAny_comp rfl, fieldsC w.toNat, decodeC_asmC ⟨by omega, by omega, by omega, by omega, by omega⟩, e1, e2]
   simp [decodeCF, meaning, immCIF, immCJF, immCBF, sext]
   all_goals omega
 
@@ -458,10 +484,11 @@ theorem good_CLi (o : Ops) (h : valid .CLi o) : Good .CLi o := by
     simp only []
     puts
   intro w hw
-  have hlt : w < 65536 := by omega
-  have e1 : w % 4 = 1 := by omega
-  have e2 : w / 8192 = 2 := by omega
-  rw [decodeAny_comp rfl, fieldsC w, decodeC_asmC ⟨by omega, by omega, by omega, by omega, by omega⟩, e1, e2]
+  push_cast at hw
+  have hlt : w.toNat < 65536 := by omega
+  have e1 : w.toNat % 4 = 1 := by omega
+  have e2 : w.toNat / 8192 = 2 := by omega
+  rw [decodeAny_comp rfl, fieldsC w.toNat, decodeC_asmC ⟨by omega, by omega, by omega, by omega, by omega⟩, e1, e2]
   simp [decodeCF, meaning, immCIF, immCJF, immCBF, sext]
   all_goals omega
 
@@ -476,10 +503,11 @@ theorem good_CLui (o : Ops) (h : valid .CLui o) : Good .CLui o := by
     simp only []
     puts
   intro w hw
-  have hlt : w < 65536 := by omega
-  have e1 : w % 4 = 1 := by omega
-  have e2 : w / 8192 = 3 := by omega
-  rw [decodeAny_comp rfl, fieldsC w, decodeC_asmC ⟨by omega, by omega, by omega, by omega, by omega⟩, e1, e2]
+  push_cast at hw
+  have hlt : w.toNat < 65536 := by omega
+  have e1 : w.toNat % 4 = 1 := by omega
+  have e2 : w.toNat / 8192 = 3 := by omega
+  rw [decodeAny_comp rfl, fieldsC w.toNat, decodeC_asmC ⟨by omega, by omega, by omega, by omega, by omega⟩, e1, e2]
   simp [decodeCF, meaning, immCIF, immCJF, immCBF, sext]
   all_goals omega
 
